@@ -1415,4 +1415,86 @@ Section RoundTrip.
     cbn [vals_ok cast_to_task budget_list forallb]. now rewrite Hs.
   Qed.
 End RoundTrip.
+(* ---------------- the side conditions hold of the shipped tables ---------------- *)
+Lemma shipped_sent_ok : forallb sent_ok shipped_formats = true.
+Proof. vm_compute. reflexivity. Qed.
+
+Lemma sent_ok_shipped E : shipped E -> sent_ok E = true.
+Proof. intros H. pose proof shipped_sent_ok as H1. rewrite forallb_forall in H1. now apply H1. Qed.
+
+(* the formatter's spaces as repetitions of the parser's space keyword: ASCII and LaTeX print one space
+   between the items of a sentence, Han none; all three print one between budget and sentence *)
+Lemma shipped_fmt_tables_ok :
+  fmt_tables_ok FORMAT_ASCII 1 1 = true /\ fmt_tables_ok FORMAT_LATEX 1 1 = true /\ fmt_tables_ok FORMAT_HAN 0 1 = true.
+Proof. repeat split; vm_compute; reflexivity. Qed.
+
+(* ---------------- known class K2 (Han): a word that looks like a budget ----------------
+   预 and 算 are the Han budget brackets and also alphabetic characters, hence name characters.
+   The well-formed word 预算 has a meaning as a term, its surface input passes every condition of
+   sent_unamb that does not mention the budget, and the parser takes it for an empty budget: no term,
+   an error.  (Same for any word 预<digits/dots/、>算 ...) *)
+Section K2.
+  Variable F : Type.
+  Variable fread : str -> option F.
+  Variable fzero : F.
+  Variable in01 : F -> bool.
+  Variable is_alnum : N -> bool.
+  Hypothesis H_empty : fread [] = None.
+  Hypothesis H_zero : in01 fzero = true.
+
+  Definition k2_word : snarsese :=
+    {| sn_lead := 0; sn_budget := None; sn_term := SAtom 6 [39044; 31639]%N; sn_punct := None;
+       sn_stamp := None; sn_truth := None; sn_trail := 0 |}.
+  Definition k2_empty_budget : snums := {| nl_sp0 := 0; nl_gaps := fun _ => (O, O); nl_texts := []; nl_sp1 := 0 |}.
+
+  Lemma k2_meaning : odesugar_narsese F fread in01 k2_word = Some (NTerm (TName Word [39044; 31639]%N)).
+  Proof. reflexivity. Qed.
+
+  Lemma k2_text : render_narsese FORMAT_HAN k2_word = [39044; 31639]%N.
+  Proof. reflexivity. Qed.
+
+  Let Hsok : sent_ok FORMAT_HAN = true.
+  Proof. vm_compute. reflexivity. Qed.
+
+  Lemma k2_at (st : pstate F) :
+    s_len st = 2%nat -> s_head st = 0%nat -> s_rest st = [39044; 31639]%N -> s_mid st = mid_empty F ->
+    at_ F 2 st (render_budget FORMAT_HAN k2_empty_budget ++ []) (mid_empty F).
+  Proof. intros Hl Hh Hr Hm. split; [split; [exact Hl | rewrite Hr, Hh; reflexivity] | split; [exact Hr | exact Hm]]. Qed.
+
+  Lemma k2_budget_taken :
+    exists st, consume_budget F fread fzero in01 FORMAT_HAN (probe_state F [39044; 31639]%N [39044; 31639]%N) = POk tt st.
+  Proof.
+    destruct (consume_budget_ok F fread fzero in01 FORMAT_HAN Hsok H_empty H_zero 2 (probe_state F [39044; 31639]%N [39044; 31639]%N) k2_empty_budget BudgetEmpty [] (mid_empty F)
+                (k2_at (probe_state F [39044; 31639]%N [39044; 31639]%N) eq_refl eq_refl eq_refl eq_refl) eq_refl) as (st & H & _).
+    eauto.
+  Qed.
+
+  Theorem sent_unamb_han_K2 (unamb : sterm -> str -> bool) :
+    sent_unamb F fread fzero in01 FORMAT_HAN unamb k2_word = false /\
+    exists st, parse_narsese F fread fzero in01 is_alnum FORMAT_HAN (render_narsese FORMAT_HAN k2_word) = PErr st.
+  Proof.
+    split.
+    - unfold sent_unamb. rewrite k2_text.
+      assert (Hb : budget_attempt_fails F fread fzero in01 FORMAT_HAN [39044; 31639]%N (from_term FORMAT_HAN k2_word) = false).
+      { unfold budget_attempt_fails. change (from_term FORMAT_HAN k2_word) with [39044; 31639]%N.
+        destruct k2_budget_taken as (st & ->). reflexivity. }
+      cbn [sn_budget k2_word]. rewrite Hb. change (from_term FORMAT_HAN k2_word) with [39044; 31639]%N.
+      change (starts (task_budget_brackets_0 FORMAT_HAN) [39044; 31639]%N) with true.
+      cbn [negb orb]. now rewrite andb_false_r.
+    - rewrite k2_text. unfold parse_narsese, run_parse, build_mid_result.
+      destruct (build_item F fread fzero in01 is_alnum FORMAT_HAN Hsok 2 4 (new_state F [39044; 31639]%N) 0
+                  [39044; 31639]%N (mid_empty F)
+                  (fun st2 => at_ F 2 st2 [] (mid_set_budget F (mid_empty F) BudgetEmpty)))
+        as (fuel' & st2 & Heq & Hat2 & Hb2).
+      + apply (k2_at (new_state F [39044; 31639]%N)); reflexivity.
+      + reflexivity.
+      + discriminate.
+      + unfold bound. cbn. lia.
+      + intros st1 Hat1. apply (one_budget F fread fzero in01 is_alnum FORMAT_HAN Hsok H_empty H_zero 2 st1 k2_empty_budget BudgetEmpty [] (mid_empty F)); auto.
+      + change (S (S (length (s_rest (new_state F [39044; 31639]%N))))) with 4%nat. rewrite Heq.
+        destruct (build_end F fread fzero in01 is_alnum FORMAT_HAN Hsok 2 fuel' st2 0 _ Hat2 Hb2) as (st3 & -> & _ & Hm3).
+        cbn [pbind]. unfold transform_mid_result. rewrite Hm3. cbn [m_term mid_set_budget mid_empty].
+        rewrite (perr_err F fzero in01 FORMAT_HAN Hsok). eauto.
+  Qed.
+End K2.
 (*MARK*)
